@@ -625,8 +625,16 @@ func verifC19RunStore(f verifkit.F, c *verifkit.Case, cs *verifC19Case, shape ve
 			return
 		}
 		if fields, diff := verifC19Differs(p.want, p.got); len(fields) > 0 {
-			c.Violation(f, "C19/"+typ+"-differs-after-round/"+strings.Join(fields, "+"),
-				"[store] %s %s differs from the primary's after the round (deletes=%v upserts=%v), -primary +secondary:\n%s", typ, id, d.Deletes, d.Upserts, diff)
+			// root cause: the content (what the hash covers) is stale  vs.  the hashed content is equal and some
+			// other field differs (then the fields name the cause)
+			key := "C19/" + typ + "-differs-after-round/" + strings.Join(fields, "+")
+			for _, fl := range fields {
+				if fl == "Hash" || (typ == "fedstate" && (fl == "UpdatedAt" || fl == "MeshGateways")) {
+					key = "C19/" + fam + "/stale-after-round"
+				}
+			}
+			c.Violation(f, key,
+				"[store] %s %s differs from the primary's after the round in %v (deletes=%v upserts=%v), -primary +secondary:\n%s", typ, id, fields, d.Deletes, d.Upserts, diff)
 			return
 		}
 	}
